@@ -56,13 +56,31 @@ KW_TEMPLATES = [
     "(setv r (lfor {k} [1 2] {k}))",
     "(try (raise (ValueError 1)) (except [{k} ValueError] (setv r (type {k}))))",
     "(defn g [] (global {k}) (setv {k} 10)) (g) (setv r {k})",
+    "(setv o (NS)) (setv o.{k} 1) (setv r (match o (NS :{k} 1) \"y\" _ \"n\"))",
+    "(setv r (match {{\"a\" 1}} {{\"a\" {k}}} {k}))",
+    "(setv r (match [1 2] [_ #* {k}] {k}))",
+    "(setv r (match 5 (int) :as {k} {k}))",
+    "(defn g [#* {k}] {k}) (setv r (g 1 2))",
+    "(defn g [#** {k}] {k}) (setv r (g :x 1))",
+    "(defn g [{k} /] {k}) (setv r (g 3))",
+    "(setv r ((fn [{k}] {k}) 4))",
+    "(for [{k} [1 2]] (setv r {k}))",
+    "(with [{k} (NS)] (setv r (type {k})))",
+    "(defn g [] (setv {k} 1) (fn [] (nonlocal {k}) (setv {k} 2)) {k}) (setv r (g))",
+    "(import os.path :as {k}) (setv r {k}.sep)",
+    "(setv r (. (NS :{k} 5) {k}))",
+    "(defclass {k} []) (setv r {k}.__name__)",
+    "(deftype {k} int) (setv r 1)",
 ]
+# names that must keep meaning the same thing in the emitted source: every Python keyword plus identifiers that
+# Python's tokenizer would normalise (NFKC) or that need mangling
+EXTRA_NAMES = ["\u00b5", "\ufb01b", "\uff41", "foo-bar", "a?", "_\u00b5", "\u2168x"]
 
 
 def bounds(tier):
     b = BOUNDS[tier]
     return {"L_max_nodes": b["n"], "L_wrappers": ["mod_r", "fn_ret"], "c09_levels": c09.BOUNDS[b["c09"]]["levels"],
-            "c02_shape_lists": b["c02_lists"], "keywords": keyword.kwlist, "keyword_templates": KW_TEMPLATES,
+            "c02_shape_lists": b["c02_lists"], "keywords": keyword.kwlist, "extra_names": EXTRA_NAMES, "keyword_templates": KW_TEMPLATES,
             "construct_pairs": len(c12.OUTER) * len(c12.INNER)}
 
 
@@ -136,7 +154,7 @@ def two_codes(acc, text, case, sigbase):
 
 def _noparse_tag(case):
     """Structural class of an unparsable-output case, for narrow known-finding matchers."""
-    if case.get("family") == "kw" and case.get("keyword") in ("None", "True", "False") and case.get("template") in (4, 7, 8, 9):
+    if case.get("family") == "kw" and case.get("keyword") in ("None", "True", "False") and case.get("template") in (4, 7, 8, 9, 14, 25, 26):   # templates using the name as attribute / keyword argument / import alias
         return "constant-keyword-as-attribute-kwarg-or-alias-name"
     if case.get("family") == "pairs" and case["text"].startswith("(defn g [#^ (unpack-iterable a) a]"):
         return "unpacking-form-as-parameter-annotation"
@@ -310,7 +328,7 @@ def run_shard(shard, tier):
         for idx in range(lo, hi):
             case_c02(acc, lists[idx])
     elif fam == "kw":
-        for k in keyword.kwlist:
+        for k in keyword.kwlist + EXTRA_NAMES:
             case_kw(acc, k)
     else:
         for idx in range(lo, hi):
